@@ -340,3 +340,77 @@ def x_vs_setenv(eng, st, a):
     o.data[:] = cells
     env = dict(st.ext.get('env') or {}); env[name] = o.base
     st.ext['env'] = env
+
+
+# ---- std::ctype<char> facet of the classic locale
+def _prepare_ctype(irm):
+    st = irm.base_state
+    names = ['model_ctype_dtor', 'model_ctype_dtor', 'model_ctype_toupper_c', 'model_ctype_toupper_r', 'model_ctype_tolower_c', 'model_ctype_tolower_r',
+             'model_ctype_widen_c', 'model_ctype_widen_r', 'model_ctype_narrow_c', 'model_ctype_narrow_r']
+    a = max(irm.addr_fn) + 16
+    for n in names:
+        if n not in irm.fn_addr:
+            irm.fn_addr[n] = a; irm.addr_fn[a] = n; a += 16
+    vt = st.alloc(16 + 8 * len(names), 'global', 'vtable (model) std::ctype<char>', fill=0)
+    for i, n in enumerate(names):
+        vt.data[16 + 8 * i:24 + 8 * i] = int_cells(irm.fn_addr[n], 8)
+    obj = st.alloc(576, 'global', 'std::ctype<char> (model, classic locale)', fill=0)
+    obj.data[0:8] = int_cells(vt.base + 16, 8)
+    obj.data[56] = 1
+    for c in range(256):
+        obj.data[57 + c] = c; obj.data[313 + c] = c
+    obj.data[569] = 1
+    irm.gaddr['model_ctype_object'] = obj.base
+
+
+MODULE_HOOKS.append(_prepare_ctype)
+
+
+@ext('_ZSt9use_facetISt5ctypeIcEERKT_RKSt6locale')
+def x_use_facet_ctype(eng, st, a):
+    return eng.irm.gaddr['model_ctype_object']
+
+
+def _case_char(eng, st, c, upper):
+    if type(c) is int:
+        c &= 255
+        return (c - 32 if 97 <= c <= 122 else c) if upper else (c + 32 if 65 <= c <= 90 else c)
+    e = simp(z3.Extract(7, 0, c)) if c.size() > 8 else c
+    if upper:
+        return simp(z3.If(z3.And(z3.UGE(e, 97), z3.ULE(e, 122)), e - 32, e))
+    return simp(z3.If(z3.And(z3.UGE(e, 65), z3.ULE(e, 90)), e + 32, e))
+
+
+@ext('model_ctype_toupper_c')
+def x_ct_toupper(eng, st, a):
+    return _case_char(eng, st, a[1], True)
+
+
+@ext('model_ctype_tolower_c')
+def x_ct_tolower(eng, st, a):
+    return _case_char(eng, st, a[1], False)
+
+
+def _case_range(upper):
+    def f(eng, st, a):
+        lo, hi = a[1], a[2]
+        for p in range(lo, hi):
+            c = eng.mem_read(st, p, 1)[0]
+            v = _case_char(eng, st, c if isinstance(c, int) else _cell_expr(c), upper)
+            eng.mem_write(st, p, [v] if type(v) is int else [(v, 0)])
+        return hi
+    return f
+
+
+EXTERNALS['model_ctype_toupper_r'] = _case_range(True)
+EXTERNALS['model_ctype_tolower_r'] = _case_range(False)
+
+
+@ext('model_ctype_widen_c', 'model_ctype_narrow_c')
+def x_ct_widen(eng, st, a):
+    return a[1]
+
+
+@ext('model_ctype_dtor', '_ZNKSt5ctypeIcE13_M_widen_initEv')
+def x_ct_noop(eng, st, a):
+    return 0
